@@ -1707,3 +1707,15 @@ Proof.
   - intros g Hgin Hp. apply paint_groups_In in Hgin. destruct Hgin as (_ & _ & Hgi). apply Hgi in Hp.
     apply io_of_In in Hp. destruct Hp as (j & Hj & _ & _ & E & _). apply Nat2Z.inj in Hj. subst j. now symmetry.
 Qed.
+
+(* ---- Part A, summary form: tracks.set_pixels ---- *)
+Lemma set_pixels_spec st t idx v s sg : set_pixels st (t, idx) v = Ok tt s -> seg st = Some sg ->
+  frame_ok sg t = true /\ g s = g st /\ ft s = ft st /\
+  exists sg', seg s = Some sg' /\ same_shape sg' sg /\
+    forall t' i, 0 <= t' ->
+      label_at sg' t' i = if (t' =? t) && memz (Z.of_nat i) idx && (i <? length (frame_of sg t))%nat then v else label_at sg t' i.
+Proof.
+  intros H Hs. apply set_pixels_ok in H. destruct H as (sg0 & Hs0 & Hf & ->). rewrite Hs in Hs0. injection Hs0 as <-. cbn [fst snd] in *.
+  split; [exact Hf|]. split; [reflexivity|]. split; [reflexivity|]. exists (paint_arr sg t idx v).
+  split; [reflexivity|]. split; [apply paint_same_shape|]. intros t' i Ht'. apply label_at_paint; [apply frame_ok_range in Hf; lia|exact Ht'].
+Qed.
